@@ -5,6 +5,7 @@ import importlib
 import json
 import multiprocessing
 import os
+import signal
 import sys
 import time
 import traceback
@@ -13,6 +14,17 @@ ROOT = os.path.dirname(os.path.dirname(os.path.abspath(__file__)))
 NPROC = int(os.environ.get("VF_NPROC", "16"))
 
 PROPS = [f"C{i:02d}" for i in range(1, 20)]
+
+
+CASE_TIMEOUT_S = int(os.environ.get("VF_CASE_TIMEOUT_S", "90"))
+
+
+class CaseTimeout(BaseException):
+    """raised by SIGALRM when one generated case exceeds the per-case wall-clock guard"""
+
+
+def _on_alarm(signum, frame):
+    raise CaseTimeout()
 
 
 class Violation(Exception):
@@ -112,6 +124,8 @@ def run_hypothesis(ctx, strategy, fn, max_examples, shrink=None):
     import hypothesis
     from hypothesis import HealthCheck, Phase, given, settings
 
+    signal.signal(signal.SIGALRM, _on_alarm)
+
     if shrink is None:
         shrink = ctx.tier == "thorough"
     phases = [Phase.generate] + ([Phase.shrink] if shrink and not ctx.collect else [])
@@ -135,7 +149,15 @@ def run_hypothesis(ctx, strategy, fn, max_examples, shrink=None):
         if not ctx.shrinking and not ctx.collect and len(ctx.violations) >= 3:
             return  # enough distinct buckets recorded in this shard; do not burn the budget
         ctx.case_no += 1
-        fn(ctx, case)
+        signal.alarm(CASE_TIMEOUT_S)
+        try:
+            fn(ctx, case)
+        except CaseTimeout:
+            # inconclusive, never a violation (e.g. an optimisation loop that does not terminate in time)
+            ctx.counters["case_wall_clock_timeout"] += 1
+            ctx.inconclusive += 1
+        finally:
+            signal.alarm(0)
 
     try:
         test()
